@@ -7,7 +7,10 @@ RULE = ('applications with 0..4 host sub-apps x 0..6 routes each (+ default), pa
         'multiple and adjacent */overlapping/shadowing; Host absent/exact/wildcard-matching/with port/non-matching; paths '
         'matching several/one/no route; non-trivial = at least two candidate routes or hosts match')
 NEEDS_TOKIO = True
-ASSUMPTIONS = ['WebSocket dispatch (call_websocket_handler) is exercised end to end over loopback (threaded runtime): each WebSocket '
+ASSUMPTIONS = ['config-driven server: humphrey_server::server::main is started from generated configuration texts (redirect and '
+               'file routes, 0..3 hosts, multi-pattern routes, hosts before or after the top-level routes) and asked over loopback; '
+               'the plugin build is not exercised',
+               'WebSocket dispatch (call_websocket_handler) is exercised end to end over loopback (threaded runtime): each WebSocket '
                'route handler writes its own identity on the stream; no upgrade = connection closed without data']
 
 
@@ -39,6 +42,123 @@ PATHS = ['/', '/a', '/a/b', '/a/b/c', '/static/x.css', '/static/', '/api/v1/user
          '/a/b/b', '/static/x.css.css', '/static/a.css/b.css', '/api/users/users', '/x.html.html', '/aab', '/a/bab', '/xx']
 ROUTE_PATS = ['/*', '/', '/a', '/a/*', '/a*', '*/b', '/static/*', '/*.css', '/api/*', '/api/*/users', '*', '**', '/*/*', '/a/b',
               '/*.html', '/a*b', '/é', '/*x*']
+
+
+SRV_HOST_PATS = ['localhost', '*.example.com', 'a.example.com', '*.com', 'api.*', '*:8080', 'exam*.com', '*.a.example.com']
+SRV_HOSTS = [None, 'localhost', 'a.example.com', 'x.a.example.com', 'example.com', 'other.org', 'localhost:8080', 'api.test',
+             'b.example.com:8080']
+SRV_ROUTE_PATS = ['/', '/*', '/a', '/a/*', '/a*', '/*.html', '/x/*/y', '/b', '/*/c', '/static/*', '/api/*/users']
+SRV_PATHS = ['/', '/a', '/a/b', '/ab', '/x/1/y', '/index.html', '/b', '/q/c', '/zzz', '/a?x=1', '/static/s.css', '/api/7/users',
+             '/a/b/c', '/x.html?y', '/api/users']
+
+
+def render_conf(rng, default, hosts):
+    """default: [( [patterns], kind, ident )]; hosts: [(pattern, routes)] -> configuration text"""
+    ind = lambda d: ' ' * (4 * d)
+    out = ['server {', ind(1) + 'address "127.0.0.1"', ind(1) + 'port 8080', ind(1) + 'threads 2', ind(1) + 'log {',
+           ind(2) + 'level "error"', ind(2) + 'console false', ind(1) + '}']
+
+    def routes(rs, d):
+        for pats, kind, ident in rs:
+            out.append(ind(d) + 'route ' + rng.choice([', ', ',', ' , ']).join(pats) + ' {')
+            if kind == 'redirect':
+                out.append(ind(d + 1) + 'redirect "/id/%s"' % ident)
+            else:
+                out.append(ind(d + 1) + 'file "@FIX@/f_%s.txt"' % ident)
+            out.append(ind(d) + '}')
+            if rng.random() < 0.3:
+                out.append('')
+    blocks = [('default', None)] + [('host', k) for k in range(len(hosts))]
+    # hosts and top-level routes may come in any order in the file; their relative order within each kind is what counts
+    if rng.random() < 0.5:
+        blocks = blocks[1:] + blocks[:1]
+    for kind, k in blocks:
+        if kind == 'default':
+            routes(default, 1)
+        else:
+            pat, rs = hosts[k]
+            out.append(ind(1) + ('host "%s" {' % pat if rng.random() < 0.7 else 'host %s {' % pat))
+            routes(rs, 2)
+            out.append(ind(1) + '}')
+    out.append('}')
+    return '\n'.join(out) + '\n'
+
+
+def server_part(ctx):
+    rng = ctx.rng
+    n = 1200 if ctx.tier == 'thorough' else 60
+    lines, meta = [], []
+    if ctx.replay:
+        lines, meta, n = [ctx.replay['case']['line']], [None], 0
+    for _ in range(n):
+        def mk_routes(tag):
+            rs = []
+            for j in range(rng.randint(0, 4)):
+                pats = rng.sample(SRV_ROUTE_PATS, rng.choice([1, 1, 1, 2, 3]))
+                rs.append((pats, rng.choice(['redirect', 'file']), '%s_%d' % (tag, j)))
+            return rs
+        default = mk_routes('d')
+        hosts = [(p, mk_routes('h%d' % i)) for i, p in enumerate(rng.sample(SRV_HOST_PATS, rng.randint(0, 3)))]
+        conf = render_conf(rng, default, hosts)
+        fixtures = ['%s:%s' % (hx('f_%s.txt' % ident), hx('F ' + ident)) for rs in [default] + [r for _, r in hosts]
+                    for _, kind, ident in rs if kind == 'file']
+        reqs = [(rng.choice(SRV_HOSTS), rng.choice(SRV_PATHS)) for _ in range(8)]
+        lines.append('srv %s %s %s' % (hx(conf), ','.join(fixtures) or '-',
+                                       ','.join('%s:%s' % ('-' if h is None else hx(h), hx(t)) for h, t in reqs)))
+        meta.append((default, hosts, reqs))
+    im = ctx.impl(lines)
+    ctx.evaluations += len(lines)
+    # the routing model on the flattened pattern lists (a multi-pattern route is one route per pattern, same handler)
+    flat = lambda rs: [(p, (kind, ident)) for pats, kind, ident in rs for p in pats]
+    mlines, mref = [], []
+    for k, me in enumerate(meta):
+        if me is None:
+            continue
+        default, hosts, reqs = me
+        enc = lambda l: ','.join(hx(x) for x in l) if l else '-'
+        sarg = '|'.join('%s:%s' % (hx(h), enc([p for p, _ in flat(rs)])) for h, rs in hosts) if hosts else '-'
+        for q, (h, t) in enumerate(reqs):
+            mlines.append('route %s %s %s %s' % ('-' if h is None else hx(h), hx(t.split('?')[0]), enc([p for p, _ in flat(default)]), sarg))
+            mref.append((k, q))
+    mout = ctx.model(mlines)
+    decided = dict(zip(mref, mout))
+    for k, (line, me, b) in enumerate(zip(lines, meta, im)):
+        ctx.count('kind:server-e2e')
+        if me is None:
+            ctx.sample({'replayed': line[:200], 'impl': b[:300]})
+            continue
+        default, hosts, reqs = me
+        got = b.split(',')
+        if len(got) != len(reqs):
+            ctx.report({'line': line[:4000], 'kind': 'server-e2e'}, b[:300], 'one answer per request', cls='server-route-mismatch',
+                       failing_input=b in ('PANIC', 'DIED', 'TIMEOUT'), what='the config-driven server did not answer: ' + b[:100])
+            continue
+        for q, ((h, t), g) in enumerate(zip(reqs, got)):
+            d = decided[(k, q)]
+            want_o = oracle(h, t.split('?')[0], [p for p, _ in flat(default)], [(hp, [p for p, _ in flat(rs)]) for hp, rs in hosts])
+            if d.startswith('sub:'):
+                _, i, j = d.split(':')
+                kind, ident = flat(hosts[int(i)][1])[int(j)][1]
+            elif d.startswith('def:'):
+                kind, ident = flat(default)[int(d.split(':')[1])][1]
+            else:
+                kind, ident = 'none', None
+            want = {'redirect': '301:loc:' + ('/id/%s' % ident).encode().hex(), 'file': '200:body:' + ('F %s' % ident).encode().hex(),
+                    'none': '404'}[kind]
+            ok = g == want or (kind == 'none' and g.startswith('404:'))
+            if d != want_o:
+                ctx.report({'line': line[:4000], 'kind': 'server-e2e', 'request': [h, t]}, 'model=' + d, 'oracle=' + want_o,
+                           cls='model-vs-oracle', failing_input=False, what='Coq routing model disagrees with the Python reading of the rule')
+            if not ok:
+                ctx.report({'line': line[:4000], 'kind': 'server-e2e', 'request': [h, t]}, g[:200], want, cls='server-route-mismatch',
+                           failing_input=True,
+                           what='the server started from this configuration answered Host=%r %s with %s; the routing rule over the '
+                                'configured hosts and routes selects %s (%s)' % (h, t, g[:80], d, want))
+            elif d != 'none' and (len(hosts) >= 1):
+                ctx.mark_nontrivial(line + str(q))
+    import shutil
+    from hv import V
+    shutil.rmtree(V + '/work/c04srv', ignore_errors=True)
 
 
 def run(ctx):
@@ -96,6 +216,12 @@ def run(ctx):
             if b != a or b != want:
                 ctx.report({'line': line, 'kind': 'websocket'}, 'impl=' + b, 'rule=' + want, cls='ws-route-mismatch', failing_input=(b != want),
                            what='WebSocket upgrade dispatched to %s but the routing rule gives %s' % (b, want))
+    # the config-driven server end to end: humphrey_server::server::main started from a configuration text; which route
+    # answered is read off the response (each route redirects to, or serves a file holding, its own identity)
+    if not ctx.replay or ctx.replay['case'].get('line', '').startswith('srv '):
+        server_part(ctx)
+    if ctx.replay and ctx.replay['case'].get('line', '').startswith('srv '):
+        return
     ctx.tokio_twin(lines[::2], m[::2], 'route-mismatch-tokio', what='tokio get_handler differs from the routing rule')
     for k in (0, len(lines) // 2):
         if k < len(lines):
